@@ -9,7 +9,6 @@ import (
 	"fmt"
 	"net"
 	"os"
-	"runtime"
 	"strconv"
 	"strings"
 	"testing"
@@ -465,38 +464,6 @@ func TestVerif_C15(t *testing.T) {
 				continue
 			}
 			cfg := sc.Cfg
-			if os.Getenv("C15_GMP1") != "" {
-				runtime.GOMAXPROCS(1)
-			}
-			if os.Getenv("C15_EXPLORE") != "" {
-				found := false
-				ecfg := sc.Cfg
-				ecfg.MaxExec = 30000
-				ecfg.CountStates = os.Getenv("C15_CS") != ""
-				n := 0
-				mcrt.Explore(ecfg, sc.Body, func(x *mcrt.Exec) string {
-					n++
-					_, sg, _ := sc.Check(x)
-					if sg == os.Getenv("C15_EXPLORE") && !found {
-						found = true
-						t.Logf("found at exec %d: points=%d steps=%d", n, len(x.Points), x.Out.Steps)
-						for i := 18; i < 32 && i < len(x.Points); i++ {
-							t.Logf("  E#%d N=%d costs=%v chosen=%d %s", i, x.Points[i].N, x.Points[i].Costs, x.Points[i].Chosen, x.Points[i].Label)
-						}
-						t.Logf("  trace %v", x.Trace)
-						c2 := sc.Cfg
-						y := mcrt.RunOnce(&c2, x.Choices, sc.Body)
-						_, sg2, _ := sc.Check(y)
-						t.Logf("  immediate replay sig=%q points=%d", sg2, len(y.Points))
-						for i := 18; i < 32 && i < len(y.Points); i++ {
-							t.Logf("  R#%d N=%d costs=%v chosen=%d %s", i, y.Points[i].N, y.Points[i].Costs, y.Points[i].Chosen, y.Points[i].Label)
-						}
-					}
-					return ""
-				})
-				r.Eval(1)
-				return
-			}
 			var pre []int
 			if f := os.Getenv("C15_CHOICES"); f != "" {
 				raw, _ := os.ReadFile(f)
@@ -507,16 +474,6 @@ func TestVerif_C15(t *testing.T) {
 				}
 				json.Unmarshal(raw, &a)
 				pre = a.Artefact.Choices
-			}
-			for k := 0; k < 3; k++ {
-				pp := pre
-				if k == 0 {
-					pp = nil
-				}
-				y := mcrt.RunOnce(&cfg, pp, sc.Body)
-				if o, _ := y.UserData.(*c15obs); o != nil {
-					t.Logf("prerun %d div=%q steps=%d log: %s", k, y.Out.Divergence, y.Out.Steps, strings.Join(o.log, "\n   "))
-				}
 			}
 			x := mcrt.RunOnce(&cfg, pre, sc.Body)
 			if o, _ := x.UserData.(*c15obs); o != nil {
